@@ -23,13 +23,26 @@ def demo_commands(path):
     cmds = []
     with open(path, errors='replace') as fh:
         head = fh.read().split('\n')[:60]
+    joined = []
+    acc = None
     for l in head:
-        s = re.sub(r'^\s*(/\*+|\*+/?|//+|#+!?|""")\s?', '', l).strip()
-        if re.match(r'^(gcc|g\+\+|cc|clang|python3|sh|bash|javac|java|\./|/tmp/|LD_LIBRARY_PATH=|cd )', s) and not s.startswith('#!/'):
+        t = re.sub(r'^\s*(/\*+|\*+/?|//+|#+!?|""")\s?', '', l).strip()
+        if acc is not None:
+            acc += ' ' + t.rstrip('\\').strip()
+            if not t.endswith('\\'):
+                joined.append(acc)
+                acc = None
+            continue
+        if t.endswith('\\'):
+            acc = t.rstrip('\\').strip()
+            continue
+        joined.append(t)
+    for s in joined:
+        if re.match(r'^((gcc|g\+\+|cc|clang|python3|sh|bash|javac|java)\s|\./|/tmp/|_b/|LD_LIBRARY_PATH=|cd )', s) and not s.startswith('#!/'):
             s = re.sub(r'\s+#.*$', '', s)
             s = re.sub(r'\s+\(.*\)\s*$', '', s)
             s = re.sub(r'\s*;\s*echo\b.*$', '', s)
-            cmds.append(s)
+            cmds.extend(x.strip() for x in s.split('&&'))
     return cmds
 
 
